@@ -866,7 +866,39 @@ def r16_reader_goes_as_deep_as_the_writer(ctx):
         ctx.ob('C19.R16', 'reader-unbounded|%s|%s' % (crate, b.nroot.split('::')[-1]), ok, b.loc(bb, t), why)
 
 
+def r17_macro_strings_are_written_as_given(ctx, rid='C19.R17', lead='', only=None):
+    ctx.rule(rid, lead + 'P7 provenance on the attribute macros (proc-macro crate MIR): the `Properties` value an attribute macro emits into '
+             '`#[diagnostic::pavex::*(..)]` is built from the parsed `InputSchema` in `TryFrom::try_from`; every string in it (a config key, a route path, '
+             'an error handler path) is the string the user wrote, moved or converted by identity conversions only. A case fold or trim here means the '
+             'compiler is told a different key / path than the one in the user\'s source and configuration files.')
+    n = 0
+    for b in ctx.fb.bodies('pavex_macros', 'ProcMacro'):
+        if b.is_promoted or 'TryFrom>::try_from' not in b.nid:
+            continue
+        defs = None
+        for bb, j, st in b.all_assigns():
+            rv = st['rv']
+            if rv['k'] != 'agg' or rv.get('ak') != 'adt' or not strip_generics(rv['adt']).endswith('::Properties'):
+                continue
+            owner = strip_generics(rv['adt']).replace('pavex_macros::', '')
+            if only is not None and not owner.startswith(only):
+                continue
+            for f, o in zip(rv.get('fields', []), rv['ops']):
+                pl = op_place(o)
+                if pl is None or 'String' not in b.locals[pl['l']]:
+                    continue
+                defs = defs or Defs(b)
+                sl, _ = backward_slice(b, pl['l'], defs)
+                cs = sorted({(c or '?').split('::')[-1].split('<')[0] for c, _, _ in slice_calls(sl)})
+                bad = [c for c in cs if c not in IDENTITY_CONVERSIONS and c not in ('value', 'branch', 'from_residual')]
+                n += 1
+                ctx.ob(rid, 'written-as-given|%s.%s' % (owner, f), not bad, b.loc(bb, st),
+                       '%s.%s is built from the parsed input through %s%s' % (owner, f, cs or 'a plain move', '' if not bad else ' — NOT identity conversions: %s' % bad))
+    ctx.floor(rid, 'string fields of the Properties values built by the attribute macros', n, 1 if only else 4)
+
+
 def check(ctx):
+    r17_macro_strings_are_written_as_given(ctx)
     r16_reader_goes_as_deep_as_the_writer(ctx)
     r15_method_set_reaches_the_compiler_as_written(ctx)
     r14_an_explicit_call_is_recorded(ctx)
